@@ -53,6 +53,7 @@ UNITS = {
             I(RAW, r'^impl RawTableInner$', 'fix_insert_slot', impl='RawTableInner'),
             I(RAW, r'^impl ProbeSeq$', 'move_next', impl='ProbeSeq'),
             I(RAW, r'^impl RawTableInner$', 'find_insert_slot', impl='RawTableInner'),
+            I(RAW, r'^impl RawTableInner$', 'find_inner', impl='RawTableInner'),
         ],
     ),
     'arith': dict(
@@ -98,6 +99,9 @@ def pow2_assert_rule(toks, i, out, hit):
     return None
 
 
+_HITS = {}
+
+
 def _args_until_close(toks, k):
     """toks[k] == '(' ; return (index of matching ')', tokens inside)"""
     j = extract._find_close(toks, k)
@@ -125,6 +129,53 @@ def ctrl_rules(toks, i, out, hit):
     def seq(k, *texts):
         return k + len(texts) <= n and all(toks[k + a].text == x for a, x in enumerate(texts))
 
+    # R7: `for PAT in EXPR { BODY }` -> the Rust reference's own desugaring
+    #     `let mut it_ = EXPR.into_iter(); loop { match it_.next() { Some(PAT) => { BODY } None => break, } }`
+    if t.kind == 'id' and t.text == 'for' and out and out[-1].text in (';', '{', '}'):
+        k = i + 1
+        while k < n and not (toks[k].kind == 'id' and toks[k].text == 'in'):
+            k += 1
+        pat = toks[i + 1:k]
+        depth = 0
+        b = k + 1
+        while b < n:
+            x = toks[b]
+            if x.kind == 'punct' and x.text in '([':
+                depth += 1
+            elif x.kind == 'punct' and x.text in ')]':
+                depth -= 1
+            elif x.kind == 'punct' and x.text == '{' and depth == 0:
+                break
+            b += 1
+        expr = extract.rewrite(toks[k + 1:b], set(), _HITS, ctrl_rules)
+        close = extract._find_close(toks, b)
+        body = extract.rewrite(toks[b + 1:close], set(), _HITS, ctrl_rules)
+        T = extract.T
+        out.extend([T('let', t.gap), T('mut'), T('it_'), T('=')])
+        if expr:
+            expr[0].gap = ' '
+        out.extend(expr)
+        out.extend([T('.', ''), T('into_iter', ''), T('(', ''), T(')', ''), T(';', ''),
+                    T('loop', '\n'), T('{'), T('match'), T('it_'), T('.', ''), T('next', ''), T('(', ''), T(')', ''), T('{'),
+                    T('Some'), T('(', '')])
+        if pat:
+            pat[0].gap = ''
+        out.extend(pat)
+        out.extend([T(')', ''), T('='), T('>', ''), T('{')])
+        out.extend(body)
+        out.extend([T('}', '\n'), T('None'), T('='), T('>', ''), T('break'), T(',', ''), T('}', '\n'), T('}', '\n')])
+        hit('R7_for_loop_desugared')
+        return close + 1
+    # R8: `&mut dyn FnMut(usize) -> bool` -> opaque `&mut EqDyn`; call `eq(E)` -> `eq.call(E)`
+    if t.text == 'dyn' and seq(i + 1, 'FnMut', '(', 'usize', ')', '-', '>', 'bool'):
+        out.append(extract.T('EqDyn', t.gap))
+        hit('R8_dyn_FnMut_usize_bool_to_EqDyn')
+        return i + 8
+    if t.kind == 'id' and t.text == 'eq' and i + 1 < n and toks[i + 1].text == '(' and not (out and out[-1].text in ('.', 'fn', ':')):
+        out.extend([extract.T('eq', t.gap), extract.T('.', ''), extract.T('call', '')])
+        hit('R8_dyn_closure_call_to_shim_call')
+        return i + 1
+
     # Group::load(self.ctrl(E)) / Group::load_aligned(self.ctrl(E))
     if t.text == 'Group' and seq(i + 1, ':', ':') and toks[i + 3].text in ('load', 'load_aligned') and seq(i + 4, '('):
         for recv in ('self', 'guard', 'table'):
@@ -135,14 +186,14 @@ def ctrl_rules(toks, i, out, hit):
                     raise ExtractError('R6: unexpected shape of Group::load argument')
                 name = 'group_load' if toks[i + 3].text == 'load' else 'group_load_aligned'
                 out.extend([extract.T(recv, t.gap), extract.T('.', ''), extract.T(name, ''), extract.T('(', '')])
-                out.extend(extract.rewrite(args, set(), {}, ctrl_rules))
+                out.extend(extract.rewrite(args, set(), _HITS, ctrl_rules))
                 out.append(extract.T(')', ''))
                 hit('R6_group_load_of_ctrl_pointer_to_indexed_load')
                 return close_outer + 1
     # *self.ctrl(E) ...
     if t.text == '*' and seq(i + 1, 'self', '.', 'ctrl', '(') and not (out and (out[-1].kind in ('id', 'num') or out[-1].text in (')', ']'))):
         close, args = _args_until_close(toks, i + 4)
-        args = extract.rewrite(args, set(), {}, ctrl_rules)
+        args = extract.rewrite(args, set(), _HITS, ctrl_rules)
         nxt = toks[close + 1] if close + 1 < n else None
         nxt2 = toks[close + 2] if close + 2 < n else None
         if nxt is not None and nxt.text == '=' and not (nxt2 is not None and nxt2.text == '=' and nxt2.gap == ''):
@@ -155,7 +206,7 @@ def ctrl_rules(toks, i, out, hit):
                 elif toks[k].text in ')]}':
                     depth -= 1
                 k += 1
-            rhs = extract.rewrite(toks[close + 2:k], set(), {}, ctrl_rules)
+            rhs = extract.rewrite(toks[close + 2:k], set(), _HITS, ctrl_rules)
             out.extend([extract.T('self', t.gap), extract.T('.', ''), extract.T('ctrl_set', ''), extract.T('(', '')])
             out.extend(args)
             out.append(extract.T(',', ''))
@@ -174,7 +225,8 @@ def ctrl_rules(toks, i, out, hit):
 def generate(unit_name, width, outdir):
     u = UNITS[unit_name]
     specs = extract.parse_vspec(os.path.join(VERIF, u['specs']))
-    hits = {}
+    hits = _HITS
+    hits.clear()
     rules = set(u.get('rules', []))
     extra = u.get('extra', pow2_assert_rule)
     if isinstance(extra, str):
@@ -209,7 +261,7 @@ def generate(unit_name, width, outdir):
     os.makedirs(outdir, exist_ok=True)
     path = os.path.join(outdir, '%s_w%d.rs' % (unit_name, width))
     open(path, 'w').write(''.join(parts))
-    return path, meta, hits
+    return path, meta, dict(hits)
 
 
 ASSUME_PAT = re.compile(r'\b(assume\s*\(|admit\s*\(|external_body|assume_specification|external_fn_specification|#\[verifier::external|axiom)')
